@@ -392,3 +392,68 @@ def C20(ck):
                          "Trace_Evidence", par=12, xmx="3g")
     finally:
         _rm(dom)
+
+
+def _bytes_fuzz(ck):
+    plan = vlib.gen_export("PsaInputs", "PsaInputs.cfg", "plan")
+    dom = vlib.gen_export("Gen_Claims", "Gen_Claims.cfg", "domains")
+    try:
+        stats, res = ck.run_and_judge(["bytes-fuzz", "-seed", ck.seed, "-tier", ck.tier, "-chunk", 50000, "-in", plan, "-in2", dom,
+                                       "-out", ck.path("bf")], "Trace_Codec", par=10, xmx="3g", guarded=True, timeout=7200)
+        acc, rej = _need_both_polarities(res, "bytes")
+        ck.extra.update(by_kind=stats.get("by_kind"), decoded_ok=acc, decode_errors=rej)
+    finally:
+        _rm(plan, dom)
+
+
+def _reader(ck):
+    stats, res = ck.run_and_judge(["codec-reader", "-seed", ck.seed, "-tier", ck.tier, "-chunk", 20000, "-out", ck.path("rd")], "Trace_Codec",
+                                  par=10, xmx="3g", guarded=True, timeout=7200)
+    _need_both_polarities(res, "reader")
+
+
+def C05(ck):
+    ck.rule = ("byte strings built after the plan TLC exports from spec/PsaInputs.tla from 13 valid seeds (CBOR tokens of both profiles "
+               "and an extension, COSE envelopes, JSON documents): 18 replacements and 8 container edits at EVERY node (also inside the "
+               "COSE payload), truncation at every offset, values of every node's head byte (all 256 in thorough), 1 710 hostile length "
+               "headers, 108 nestings, JSON member replacements / duplicates, seeded multi-byte edits; each through every matching entry "
+               "point of 23 (evidence, claims, deprecated aliases, per-type unmarshalers, extension claims, populate helpers); whatever "
+               "is returned goes through Validate, all getters, component getters, both encoders (validating and not) and Verify with "
+               "right / wrong / nil / wrong-type keys; plus ALL inputs of <= 4 (5) bytes over a 16-byte header alphabet through "
+               "PopulateStructFromCBOR judged against the reader machine of PsaCodec (exact ok / err and key list); outcome alphabet "
+               "{ok, err}; the coverage-guided-fuzzing clause of the quantifier is not claimed; non-trivial = anything but a plain error")
+    ck.assumptions = TRUST + ["a worker killed by the input is recorded by the orchestrator and reported as outcome oom / timeout / crash"]
+    ck.add_model(vlib.mc("MC_Codec", "MC_Codec.cfg"))
+    _reader(ck)
+    _bytes_fuzz(ck)
+
+
+def C06(ck):
+    ck.rule = ("the C05 input plan (1 710 hostile headers of major type 2..6 declaring 2^8..2^63 with 0 / 1 / 5 following items at six "
+               "placements, nesting to depth 10 000, honest inputs up to 64 KiB+, every structural mutation) with runtime.MemStats "
+               "TotalAlloc and wall clock measured around each call in a single-goroutine worker under an address-space limit; bound "
+               "1 MiB + 1 KiB per input byte and 5 s (Trace_Codec!MemOK); MC_Codec proves ReservedBounded on the reader machine; "
+               "non-trivial = anything but a plain error")
+    ck.assumptions = TRUST + ["runtime.MemStats.TotalAlloc as the instrument for allocated bytes; RLIMIT_AS on the worker"]
+    ck.add_model(vlib.mc("MC_Codec", "MC_Codec.cfg"))
+    _reader(ck)
+    _bytes_fuzz(ck)
+
+
+def C15(ck):
+    ck.rule = ("struct shapes described by reflection (flat with omitempty / '-' / untagged fields, one and two levels of embedded "
+               "struct, embedded interface holding a struct or nil, all-optional, duplicate key across embedding, extension claims on "
+               "both base profiles) x every subset of their optional fields x seeded values, in CBOR and JSON: key list and length "
+               "header of the output (independent readers), stability, populate into a fresh struct, equivalence with the plain "
+               "marshallers, every single missing key, a duplicate CBOR key - judged against PsaCodec!Serialize / PopulateOK; synthetic "
+               "structs of 0..70 000 keys around the 23/24, 255/256, 65535/65536 header boundaries; all inputs of <= 4 (5) bytes through "
+               "the reader machine; non-trivial = every shape instance")
+    ck.assumptions = TRUST + ["the harness's reflection-based description of its own struct types"]
+    ck.add_model(vlib.mc("MC_Codec", "MC_Codec.cfg"))
+    dom = vlib.gen_export("Gen_Claims", "Gen_Claims.cfg", "domains")
+    try:
+        ck.run_and_judge(["codec-shapes", "-seed", ck.seed, "-tier", ck.tier, "-chunk", 5000, "-in", dom, "-out", ck.path("sh")], "Trace_Codec",
+                         par=10, xmx="3g")
+    finally:
+        _rm(dom)
+    _reader(ck)
